@@ -314,3 +314,24 @@ SUBPROPS = [SubProp("task_sequences_in_one_process", pred_sequence, strategy=seq
                     rule="2-4 evaluate() calls of (mostly different) tasks in one interpreter, each compared with direct calls; NT = at least two different tasks")]
 SUBPROPS += [SubProp(t, make_pred(t), strategy=make_strategy(t), n=N[t], shards=(2 if t in ("segment", "hierarchy", "beat") else 1, 8), floor=0.2,
                     rule="evaluate() of mir_eval.%s vs direct calls; NT = keyword(s) passed or an empty side" % t) for t in R.TASKS]
+
+
+@st.composite
+def biased_tracker_case(draw):
+    """a steady pulse tracked with a constant bias (late or early by k/64 s) and ALL of Goto's / continuity's keywords set, pairwise
+    different: the mean of the beat error is then large and its spread small, which tells the keywords apart"""
+    period = draw(st.sampled_from([0.5, 0.75, 1.0]))
+    n = draw(st.integers(8, 14))
+    t0 = 5.0 + draw(st.integers(0, 64)) / 64
+    ref = [t0 + i * period for i in range(n)]
+    s = draw(st.integers(-14, 14)) / 64
+    est = [x + s for x in ref]
+    kw = {"goto_threshold": draw(st.sampled_from([0.35, 0.25, 0.45])), "goto_mu": draw(st.sampled_from([0.05, 0.1, 0.2, 0.3])),
+          "goto_sigma": draw(st.sampled_from([0.02, 0.15, 0.25, 0.4])),
+          "continuity_phase_threshold": draw(st.sampled_from([0.05, 0.175, 0.3])), "continuity_period_threshold": draw(st.sampled_from([0.1, 0.2, 0.02]))}
+    return {"shape": "regular", "ref": ref, "est": est, "kw": kw, "junk": draw(st.booleans())}
+
+
+SUBPROPS.append(SubProp("beat_biased_tracker_keywords", make_pred("beat"), strategy=biased_tracker_case, n=(300, 6000), shards=(2, 8), floor=0.2,
+                        rule="steady pulse with a constant tracking bias, all Goto and continuity keywords set to pairwise different values; evaluate() vs direct calls"))
+
